@@ -338,6 +338,11 @@ def run(ctx, chk):
              'epilogue stores; prologue pushes mirror epilogue pops', floor=14)
     chk.rule('C01.9', 'D', 'encode_op produces exactly one code sequence for every defined encoding and diverges for '
              'Invalid', floor=500)
+    chk.rule('C01.10', 'D', 'value level, all operands at once: the emitted x86-64 bytes of every encoding, abstractly '
+             'executed from the documented register assignment, leave every bit of EAX/EBX/EDX/ECX (AF BC DE HL), SP and PC '
+             '(mod 2^16) equal to the interpreter, perform the same byte accesses (kind, address, value, order) through '
+             'the embedded helper addresses with RDI = the MemoryAreas pointer, keep the host stack balanced and never '
+             'branch on an undefined or clobbered value', floor=500)
     facts = ctx.facts('jit')
     prog = ctx.program('jit')
     ENC = 'emitter::x86_64::Emitter::encode_op'
@@ -542,6 +547,9 @@ def run(ctx, chk):
         chk.rules['C01.5']['instances'] += len(lst) - 1
         chk.rules['C01.5']['failures'] += len(lst) - 1
     check_layout(ctx, chk, prog, facts)
+    from .. import jitsem
+    jitsem.apply_rule(ctx, chk, 'C01.10', lambda c: c != 'cycles')
+    jitsem.suppress_subsumed(ctx, chk, ('C01.1', 'C01.2', 'C01.3', 'C01.5', 'C01.6', 'C01.7'))
     chk.assumptions += ['x86-64 semantics of the template bytes are not interpreted: a wrong opcode byte inside an emit_* '
                         'template is outside the reach of this check (DESIGN 2.4); the 60-entry effect table in '
                         'gbsa/emitmodel.py is trusted and fails closed on unknown templates',
